@@ -192,7 +192,7 @@ impl<M: RawMutex + 'static> Sut for MutexSut<M> {
 
     fn random_op(&self, rng: &mut Rng) -> Value {
         let k = self.futs.k();
-        loop {
+        for _attempt in 0..400 {
             let f = 1 + rng.below(k);
             let w = variant_name(self.wk[rng.below(self.wk.len())]);
             match rng.below(10) {
@@ -224,5 +224,6 @@ impl<M: RawMutex + 'static> Sut for MutexSut<M> {
                 _ => return json!({"op": "is_locked"}),
             }
         }
+        json!({"op": "idle"})
     }
 }
